@@ -37,6 +37,17 @@ def main():
             print(n, j.meta)
         return 0
     if a.replay:
+        import json as _json
+        with open(a.replay) as f:
+            doc = _json.load(f)
+        if doc.get('kind') == 'model':
+            from . import modelreplay
+            r = modelreplay.replay(doc)
+            if r and r.startswith('SKIP'):
+                print('REPLAY', r)
+                return 4
+            print('REPLAY', 'FAILS: ' + r if r else 'passes')
+            return 1 if r else 0
         r = core.replay(a.replay)
         print('REPLAY', 'FAILS: ' + r if r else 'passes')
         return 1 if r else 0
